@@ -9,7 +9,7 @@ import sys
 import time
 import traceback
 
-from . import lean
+from . import drift, lean
 
 VERIF = lean.VERIF
 # mutant self-tests (tools/mutant.sh) redirect both so that a run against a mutated copy never overwrites the evidence
@@ -155,6 +155,15 @@ def main(run_fn, prop_id):
     try:
         chk.lean_gate()
         run_fn(chk)
+        changed = drift.drifted() if tier == "quick" else []
+        if changed:
+            # the source is not the one the recorded correspondence was sampled against: sample more (harness/drift.py)
+            rounds = int(os.environ.get("VERIF_DRIFT_ROUNDS", "3"))
+            done = 0
+            while done < rounds and not chk.violations:
+                run_fn(chk)
+                done += 1
+            chk.extra["source_drift"] = {"files": changed, "extra_rounds": done}
         rc = chk.finish()
     except lean.InfraError as e:
         print(f"INFRA-ERROR {prop_id}: {e}")
